@@ -718,7 +718,14 @@ func (c *vCase) opAdd(local bool, txs []*types.Transaction) {
 				th := new(big.Int).Add(big.NewInt(100), bump)
 				th.Mul(th, old.tx.GasPrice()).Div(th, big.NewInt(100))
 				if v.tx.GasPrice().Cmp(th) < 0 || v.tx.GasPrice().Cmp(old.tx.GasPrice()) <= 0 {
-					o.Fail(c.step, "replace-rule", fmt.Sprintf("acct=%d nonce=%d old_price=%s new_price=%s bump=%s accepted", v.from, v.tx.Nonce(), old.tx.GasPrice(), v.tx.GasPrice(), bump))
+					detail := fmt.Sprintf("acct=%d nonce=%d old_price=%s new_price=%s bump=%s accepted", v.from, v.tx.Nonce(), old.tx.GasPrice(), v.tx.GasPrice(), bump)
+					full := uint64(pre.slots+numSlots(v.tx)) > c.pool.config.GlobalSlots+c.pool.config.GlobalQueue
+					if full && !pre.all[old.id] && v.tx.GasPrice().Cmp(old.tx.GasPrice()) > 0 {
+						// the old tx was evicted as (one of) the cheapest remote(s) by the pool-full branch
+						o.Fail(c.step, "replace-bypass-eviction", "old_remote_cheapest pool_full "+detail)
+					} else {
+						o.Fail(c.step, "replace-rule", detail)
+					}
 				}
 				if now := find(post, v.from, v.tx.Nonce()); now != nil && now.id == old.id {
 					o.Fail(c.step, "replace-rule", "accepted replacement but the old tx is still listed")
@@ -833,7 +840,7 @@ func (c *vCase) opReset(r *vRand) {
 		case 4:
 			sdb.SetNonce(addr, sn+1)
 		}
-		switch r.Pick(60, 12, 8, 10, 10) {
+		switch r.Pick(76, 6, 3, 5, 10) {
 		case 1:
 			sdb.SetBalance(addr, big.NewInt(int64(r.Intn(400000))))
 		case 2:
@@ -854,7 +861,7 @@ func (c *vCase) opReset(r *vRand) {
 		}
 	}
 	if r.Chance(15, 100) {
-		c.chain.gasLimit = []uint64{30000, 50000, 100000, 1000000}[r.Intn(4)]
+		c.chain.gasLimit = []uint64{30000, 50000, 100000, 1000000, 200000, 1000000}[r.Intn(6)]
 	}
 	if r.Chance(10, 100) {
 		c.chain.height = []uint64{0, 6039391, 6039392, 7000000}[r.Intn(4)]
@@ -981,17 +988,17 @@ func (c *vCase) opReload() {
 
 // ---------------------------------------------------------------- generators
 
-var vPrices = []int64{1, 2, 3, 5, 8, 10, 11, 12, 15, 20, 30}
+var vPrices = []int64{1, 2, 2, 3, 5, 5, 5, 8, 10, 10, 11, 12, 15, 20, 30}
 
 func (c *vCase) genTx(r *vRand, pre *vSnap) *types.Transaction {
-	a := 1 + r.Pick(4, 3, 2, 1)
+	a := 1 + r.Pick(3, 3, 2, 2)
 	key := vKeys[a-1]
 	addr := vAddrs[a-1]
 	sn := c.stateNonce(a)
 	base := pre.nonces[a]
 	var old *vEntry
 	var nonce uint64
-	switch r.Pick(45, 22, 15, 6, 12) {
+	switch r.Pick(52, 22, 14, 4, 8) {
 	case 0:
 		nonce = base
 	case 1: // same nonce as an existing tx
@@ -1037,7 +1044,7 @@ func (c *vCase) genTx(r *vRand, pre *vSnap) *types.Transaction {
 		}
 	}
 	var data []byte
-	switch r.Pick(80, 10, 6, 2, 2) {
+	switch r.Pick(88, 6, 3, 1, 2) {
 	case 1:
 		data = make([]byte, 1+r.Intn(12))
 		for i := range data {
@@ -1055,7 +1062,7 @@ func (c *vCase) genTx(r *vRand, pre *vSnap) *types.Transaction {
 	create := r.Chance(1, 20)
 	intr, _ := IntrinsicGas(data, create, !c.pool.isGalaxias)
 	var gas uint64
-	switch r.Pick(30, 10, 20, 20, 8, 6, 6) {
+	switch r.Pick(30, 4, 25, 25, 3, 3, 5) {
 	case 0:
 		gas = intr
 	case 1:
@@ -1072,7 +1079,7 @@ func (c *vCase) genTx(r *vRand, pre *vSnap) *types.Transaction {
 		gas = 21000 + uint64(r.Intn(8001)) // around both base costs
 	}
 	value := big.NewInt(int64([]int{0, 0, 100, 1000}[r.Intn(4)]))
-	switch r.Pick(86, 3, 6, 5) {
+	switch r.Pick(93, 2, 3, 2) {
 	case 1:
 		value = big.NewInt(-1)
 	case 2, 3: // balance boundary
@@ -1092,7 +1099,7 @@ func (c *vCase) genTx(r *vRand, pre *vSnap) *types.Transaction {
 		tx = types.NewTransaction(nonce, common.Address{byte(a)}, value, gas, price, data)
 	}
 	var signer types.Signer
-	switch r.Pick(45, 45, 7, 3) {
+	switch r.Pick(48, 48, 3, 1) {
 	case 0:
 		signer = types.HomesteadSigner{}
 	case 1:
@@ -1185,10 +1192,10 @@ func runCaseC17(o *vOut, r *vRand, n int, tmp string) {
 	}
 	c.cfg = cfg
 	statedb, _ := state.New(common.Hash{}, state.NewDatabase(memorydb.New()), nil)
-	c.chain = &vChain{statedb, []uint64{100000, 1000000, 50000, 200000}[r.Intn(4)], []uint64{0, 0, 6039391, 6039392, 7000000}[r.Intn(5)], new(event.Feed)}
+	c.chain = &vChain{statedb, []uint64{100000, 1000000, 50000, 200000, 1000000}[r.Intn(5)], []uint64{0, 0, 6039391, 6039392, 7000000}[r.Intn(5)], new(event.Feed)}
 	for a := 1; a <= vAccts; a++ {
 		statedb.SetNonce(vAddrs[a-1], uint64(r.Pick(5, 2, 2, 1)))
-		switch r.Pick(70, 15, 10, 5) {
+		switch r.Pick(85, 8, 4, 3) {
 		case 0:
 			statedb.SetBalance(vAddrs[a-1], big.NewInt(1000000000))
 		case 1:
@@ -1222,7 +1229,7 @@ func runCaseC17(o *vOut, r *vRand, n int, tmp string) {
 	s0 := c.snapshot()
 	c.emit("INIT "+c.chainSpec(), "H 0", nil, s0)
 	c.invariant(s0, true, nil)
-	steps := 8 + r.Intn(17)
+	steps := 10 + r.Intn(21)
 	for i := 0; i < steps; i++ {
 		wReload := 1
 		if journal {
@@ -1300,7 +1307,7 @@ func TestVerifC17(t *testing.T) {
 	}
 	defer os.RemoveAll(tmp)
 	o := vOpen()
-	o.Rule = "a case is one pool history (config, fake-chain state, 8-24 operations: AddRemotesSync/AddLocals batches, head resets, SetGasPrice, lifetime expiry, journal reload); non-trivial = the history meets a replacement/pool-full/underpriced outcome or ends with both pending and queued txs; distinct by (limits, op-kind string, error string)"
+	o.Rule = "a case is one pool history (config, fake-chain state, 10-30 operations: AddRemotesSync/AddLocals batches, head resets, SetGasPrice, lifetime expiry, journal reload); non-trivial = the history meets a replacement/pool-full/underpriced outcome or ends with both pending and queued txs; distinct by (limits, op-kind string, error string)"
 	root := vNew(*vSeed)
 	for n := 0; n < *vN; n++ {
 		if *vOnly >= 0 && *vOnly != n {
